@@ -245,6 +245,9 @@ def main(argv=None):
                     unknown.append((name, cfg, o))
     for name, cfg, o in unlisted:
         idx += 1
+        if idx > 40:
+            violations.append((name, cfg, o, violations[-1][3], None))
+            continue
         path, reproduced = run_replay(REG[name], cfg, o, prop, idx)
         violations.append((name, cfg, o, path, reproduced))
 
@@ -257,13 +260,20 @@ def main(argv=None):
         rel = os.path.relpath(path, VERIF)
         key = (name, o["name"])
         tail = "" if reproduced else " no-failing-input-found"
-        print(f"failed obligation: {name} :: {o['name']} cfg={cfg} model={(o.get('failure') or {}).get('model')} "
-              f"detail={(o.get('failure') or {}).get('detail')} where={o.get('where')}")
+        if len(seen) < 12:
+            print(f"failed obligation: {name} :: {o['name']} cfg={str(cfg)[:300]} model={(o.get('failure') or {}).get('model')} "
+                  f"detail={str((o.get('failure') or {}).get('detail'))[:600]} where={o.get('where')}")
         if key in seen:
             continue
         seen.add(key)
-        print(f"VIOLATION property={prop} replay={rel}{tail}")
         exit_code = 1
+        if len(seen) > 12:
+            continue
+        print(f"VIOLATION property={prop} replay={rel}{tail}")
+    if len(seen) > 12:
+        print(f"... and {len(seen) - 12} more failed obligations (see evidence/{prop}.json failed_obligations)")
+    if False:
+        pass
     if exit_code == 0:
         if broken:
             for b in broken[:10]:
